@@ -24,6 +24,7 @@ Two further dimensions of every case (props/c15_obs.py holds the code that touch
 """
 import math
 import os
+import time
 import traceback
 import warnings
 
@@ -1431,7 +1432,17 @@ def evaluate(ctx, run):
     codes = {}
     for kind in ("create", "modify", "eq", "roundtrip", "angle"):
         terms = [c["term"] for c in run.cases[kind]]
-        codes[kind] = ctx.shards("Cases_C15_%s" % kind, HEADER, terms, shard=60) if terms else []
+        t0 = time.time()
+        # the expensive terms come in runs (all modifications of one 30-bin comoving / logspace base): deal the
+        # terms out over the shards instead of cutting the list into blocks
+        size = 40
+        nsh = max(1, -(-len(terms) // size))
+        perm = sorted(range(len(terms)), key=lambda i: (i % nsh, i))
+        got = ctx.shards("Cases_C15_%s" % kind, HEADER, [terms[i] for i in perm], shard=size) if terms else []
+        codes[kind] = [None] * len(terms)
+        for pos, i in enumerate(perm):
+            codes[kind][i] = got[pos]
+        ctx.log("coq %s: %d terms in %.1fs" % (kind, len(terms), time.time() - t0))
     interpret(run, codes)
     ctx.extra["cases"] = {k: len(v) for k, v in run.cases.items()}
     ctx.extra["hypotheses_checked"] = {
